@@ -325,6 +325,33 @@ def judge(case, part):
             bad(f"chain-on-returned-objects:A->C-after-the-chain-differs:{first}", after=direct, before=xc)
         elif not _close(np.asarray(y), np.asarray(xc), eps, zsi, float(C.base_value), k=256):
             bad(f"chain-on-returned-objects:in-place-chain-differs-from-A->C:{first}", chain=y, direct=xc)
+    # ... and along the base-unit routes, also starting from a quantity that already is in base units (nothing to rescale): what
+    # in_base / in_mks / in_cgs hand back is converted in place; the quantity they were asked of must still be what it was
+    for route, step in (("in_base", lambda q: q.in_base()), ("in_mks", lambda q: q.in_mks()), ("in_cgs", lambda q: q.in_cgs())):
+        for start in ("A", "A-in-base-units"):
+            try:
+                src = x.copy() if start == "A" else getattr(x, route)().copy()
+            except Exception:
+                continue
+            before, u_before = np.asarray(src).tobytes(), src.units
+
+            def chain2():
+                y = step(src)
+                y.convert_to_units(B)
+                y.convert_to_units(C)
+                return y, src.to(C)
+            st_, r = _try(chain2)
+            if st_ == "err":
+                part.count("base-route chain raises (judged by the route clauses)")
+                continue
+            y, direct = r
+            part.nt(("base-route-chain", route, start, fam))
+            if np.asarray(src).tobytes() != before or not _same_units(src.units, u_before):
+                bad(f"chain-on-returned-objects:source-changed:{route}:{start}", source_now=src, source_was=x)
+            elif not _close(np.asarray(direct), np.asarray(xc), eps, zsi, float(C.base_value), k=64):
+                bad(f"chain-on-returned-objects:A->C-after-the-chain-differs:{route}:{start}", after=direct, before=xc)
+            elif not _close(np.asarray(y), np.asarray(xc), eps, zsi, float(C.base_value), k=256):
+                bad(f"chain-on-returned-objects:in-place-chain-differs-from-A->C:{route}:{start}", chain=y, direct=xc)
     # ---- exact value for generated affine parameters
     if fam == "custom":
         def aff(name):
